@@ -12,7 +12,8 @@ func init() {
 		"C22": {"(R2) the router that generates an SCMP reply owes the accumulator update of its own hop on the segment the reply leaves on: info and hop field for the update are selected after the cross-over revert (C10's reversal rule)."},
 		"C24": {"(F1) chains fetched from a remote server are accepted only if, for every chain, the subject ISD-AS equals the queried one, the subject key id equals the queried one and the leaf validity covers the queried validity (or none was queried); the gRPC and the connect fetcher return chains only behind that check.",
 			"(K1) Signer.Sign writes and Verifier.Verify reads the verification key id member for member."},
-		"C25": {"(U1) a topology reload replaces every attribute of a surviving interface except RemoteID (link type and neighbour included): member-wise summary of Interface.updateTopoInfo; Interfaces.Update calls it for every surviving interface."},
+		"C25": {"(U1) a topology reload replaces every attribute of a surviving interface except RemoteID (link type and neighbour included): member-wise summary of Interface.updateTopoInfo; Interfaces.Update calls it for every surviving interface.",
+			"(L1) the leaves of the loop filter: buildHops appends one hop per AS entry on every iteration; filterAsLoop looks every hop up, reports one seen before and records every other one; filterIsdLoop skips a hop only if its ISD equals the previous hop's and updates the previous ISD whenever it records."},
 		"C28": {"(D0) every construction is a candidate for 'the one that expires last is kept': all segments of the three lists enter the graph under their own type, and Combine hands the lists to newDMG as they came (shared with C29 S1)."},
 		"C30": {"(X2) every hop field of a combined path is copied, all four members (ExpTime included), from one input hop field - the regular hop entry, or for a peering hop the peer entry: the expiry the pather filters on is the expiry of the hops that are in the path (C28's provenance rule)."},
 		"C31": {"(X1) RevInfo.Expiration/Timestamp/TTL and the module helpers they call compute on 64-bit values only (no +,-,*,<< below 64 bits, no narrowing conversion), and each result is computed from its raw members: 'for arbitrary lifetimes' includes those whose end crosses 2^32 seconds."},
@@ -23,6 +24,14 @@ func init() {
 		"C37": {"(C1) 'that chain verifies' is cppki.VerifyChain: chain validation, x509 verification at the given time against the TRC's root pool, certificate constraints (C34 V1, V2, K1 borrowed)."},
 		"C38": {"(H2) the optional header timestamp is encoded as present exactly when the Go time is non-zero and decoded as non-zero exactly when the sub-message is present."},
 		"C39": {"(Q1) in the three DRKey sqlite back ends every placeholder of every statement is bound to the member its column holds (statement text and call arguments are both read from the source)."},
+		"C03": {"(O1) the path snet decodes from a packet owns its bytes: every store into RawPath.Raw in Packet.Decode is a freshly made slice into which the path is serialized (ReplyPath reverses in place; the connection reuses its receive buffer)."},
+		"C40": {"(P1) the peer address the validators compare against is the transport's: in pkg/connect.AttachPeer (closures and module callees included) peer.Peer.Addr is the http3 remote address or the request's TCP remote address, and nothing the requester writes into the request is read.",
+			"(X2) every response encoder carries the derived key's epoch bounds and key bytes."},
+		"C42": {"(P1, converse) a rule whose From and To match is applied: every way round the rule loop of Policy.Match that neither adds nor removes a set crosses a failed From/To match."},
+		"C43": {"(P1) each of the 12 printers emits its one text form with all its members, unconditionally (an inverted port range is printed as the inverted range it is)."},
+		"C46": {"(H1) a Host is printed and parsed verbatim: String() prints netip.Addr.String of the stored address / SVC.String of the stored service, selected by Type(); String, ParseHost, HostIP and IP call nothing that changes the representation of the address."},
+		"C47": {"(H1) HopPredicateFromString stores as many interfaces as were written: the second comma part is appended under no condition on its value, on every successful path; ISD and AS are the parsed parts."},
+		"C48": {"(F1) FIFO content, by SSA value identity: each copy out of the ring is followed by exactly one clearing construct over exactly the copied range, the read/write index advances by what was copied and is reset to the wrapped piece's length, the wrapped piece continues the caller's list at [n1:] and is taken only if n1 < len(list)."},
 	} {
 		extraExplain[k] = append(extraExplain[k], v...)
 	}
